@@ -60,7 +60,8 @@ Record ctor := mkCtor {
 
 Record opcode := mkOp { op_value : N; op_sa : list (string * N) }.
 
-(* class-level state SCSICommand._cdb_bits / len(SCSICommand._cdb) *)
+(* the class-level state SCSICommand._cdb_bits / len(SCSICommand._cdb) that the library used to keep: no statement
+   reads or writes it any more (Proofs/CtorSound.v: exec_G); it is still threaded so that this is a theorem *)
 Record gstate := mkG { g_bits : layout; g_len : nat }.
 Definition G0 : gstate := mkG [] 0.
 
@@ -237,16 +238,14 @@ Section Eval.
             match eval ρ ei with
             | Raise x => (G, Raise x)
             | Ok vi =>
-                (* SCSICommand._cdb_bits = self._cdb_bits  happens first, then init_cdb may raise *)
-                let G1 := mkG (c_bits K) (g_len G) in
+                (* SCSICommand.init_cdb(opcode) only validates the opcode (OpcodeException); nothing is stored on the class *)
                 match init_len (op_value op) with
-                | Raise x => (G1, Raise x)
+                | Raise x => (G, Raise x)
                 | Ok n =>
-                    let G2 := mkG (c_bits K) n in
                     match vo, vi with
                     | CInt no, CInt ni =>
-                        (G2, Ok (ρ, mkCmd (cdb c) (CZeros no) (CZeros ni) (attrs c)))
-                    | _, _ => (G2, Raise TypeError)
+                        (G, Ok (ρ, mkCmd (cdb c) (CZeros no) (CZeros ni) (attrs c)))
+                    | _, _ => (G, Raise TypeError)
                     end
                 end
             end
@@ -269,10 +268,20 @@ Section Eval.
         | Ok d =>
             match npos with
             | S _ => (G, Raise TypeError)          (* build_cdb() takes keyword arguments only *)
-            | O => match encode_cdict d (g_bits G) (zeros (g_len G)) with
-                   | Raise x => (G, Raise x)
-                   | Ok r => (G, Ok (ρ, mkCmd (Some r) (dataout c) (datain c) (attrs c)))
-                   end
+            | O =>
+                (* cls.marshall_cdb(cdb): result = cls.init_cdb(cdb["opcode"]); encode_dict(cdb, cls._cdb_bits, result) *)
+                match lookup "opcode" d with
+                | None => (G, Raise KeyError)
+                | Some (CInt v) =>
+                    match init_len v with
+                    | Raise x => (G, Raise x)
+                    | Ok n => match encode_cdict d (c_bits K) (zeros n) with
+                              | Raise x => (G, Raise x)
+                              | Ok r => (G, Ok (ρ, mkCmd (Some r) (dataout c) (datain c) (attrs c)))
+                              end
+                    end
+                | Some _ => (G, Raise TypeError)
+                end
             end
         end
     | SUnknown _ => (G, Raise (OtherExn "Unknown"))
@@ -340,7 +349,12 @@ Section Eval.
     end.
 End Eval.
 
-(* the static SCSICommand.marshall_cdb / unmarshall_cdb consult the class-level state *)
-Definition unmarshall_cdb (G : gstate) (b : bytes) : result (list (string * value)) := decode_bits b (g_bits G).
-Definition marshall_cdb (G : gstate) (d : list (string * value)) : result bytes :=
-  encode_dict d (g_bits G) (zeros (g_len G)).
+(* the classmethods K.marshall_cdb / K.unmarshall_cdb use the layout of their own class; the cdb length comes from the
+   operation code in the dictionary *)
+Definition unmarshall_cdb (K : ctor) (b : bytes) : result (list (string * value)) := decode_bits b (c_bits K).
+Definition marshall_cdb (init_len : N -> result nat) (K : ctor) (d : list (string * value)) : result bytes :=
+  match lookup "opcode" d with
+  | None => Raise KeyError
+  | Some (VI v) => match init_len v with Ok n => encode_dict d (c_bits K) (zeros n) | Raise e => Raise e end
+  | Some (VB _) => Raise TypeError
+  end.
